@@ -117,6 +117,19 @@ impl Corpus {
         Corpus { mode, files }
     }
 
+    /// like `tiny`, but the decryptable file ends in a FULL-size final chunk (and one is exactly one full chunk)
+    pub fn tiny_full(seed: u64, aad: &[u8], cs: u32) -> Corpus {
+        let mut c = Corpus::tiny(seed, aad, cs);
+        let k1: [u8; 32] = match &c.mode {
+            Mode::Tiny { key, .. } => unhx(key).try_into().unwrap(),
+            _ => unreachable!(),
+        };
+        let n = cs as usize;
+        let p = plaintext(seed ^ 0x34, 2 * n);
+        c.files[0] = Corpus::mk(&c.mode, "F1full", r::write_chunks(&k1, aad, &p, &[n, n]), &p, &[n, n], None, true);
+        c
+    }
+
     /// hooked loop: each file under its own key (the format never shares a file key between files)
     pub fn tiny(seed: u64, aad: &[u8], cs: u32) -> Corpus {
         let k1 = derive32(seed, "g-tiny-k1");
@@ -851,6 +864,14 @@ pub fn run_all_graphs(rep: &'static Report, which: Which) {
             println!("  graph {}-cs{}: states={} transitions={} depth={} accepting={}", name, cs, st.states, st.transitions, st.max_depth, st.accepted);
         }
     }
+    // files whose final chunk is exactly chunk-size bytes (a full buffer changes what the end-of-stream probe sees)
+    for (aad, name) in [(vec![], "tinyfull"), (r::PASS_MAGIC.to_vec(), "tinyfull-magic")] {
+        let cs = 2u32;
+        let c = Corpus::tiny_full(seed, &aad, cs);
+        let levels = rep.tier.pick(vec![Full, Medium], vec![Full, Medium, Small]);
+        let st = run_graph(new_ctx(rep, c, which, &format!("{}-cs{}", name, cs), levels, vec![0]));
+        println!("  graph {}-cs{}: states={} transitions={} depth={} accepting={}", name, cs, st.states, st.transitions, st.max_depth, st.accepted);
+    }
     // password mode through the public API: depth 1 (one scrypt per state), explored breadth-first by hand
     // (same model object, rayon instead of stateright's job market: ~200..1500 states of 105 ms each)
     let c = Corpus::pass_mode(seed);
@@ -905,7 +926,13 @@ pub fn replay_state(rep: &'static Report, which: Which, case: &Value) {
     let corpus = match &mode {
         Mode::Key { .. } => Corpus::key_mode(seed),
         Mode::Pass { .. } => Corpus::pass_mode(seed),
-        Mode::Tiny { aad, cs, .. } => Corpus::tiny(seed, &unhx(aad), *cs),
+        Mode::Tiny { aad, cs, .. } => {
+            if case["label"].as_str().unwrap_or("").starts_with("tinyfull") {
+                Corpus::tiny_full(seed, &unhx(aad), *cs)
+            } else {
+                Corpus::tiny(seed, &unhx(aad), *cs)
+            }
+        }
     };
     let x = unhx(case["bytes"].as_str().unwrap_or(""));
     let ctx = new_ctx(rep, corpus, which, case["label"].as_str().unwrap_or("replay"), vec![], vec![]);
